@@ -14,6 +14,10 @@ template <class T, glm::qualifier Q, int L> static void reg_geom() {
 		       for (int i = 0; i < L; ++i) { long double a = (long double)SA<T>::get(in[L + i]), b = (long double)SA<T>::get(in[2 * L + i]); d += a * b; s += (a * b < 0 ? -a * b : a * b); if (a != (long double)(long long)a || b != (long double)(long long)b || a > 1024 || a < -1024 || b > 1024 || b < -1024) ints = false; }
 		       if (d == 0) return ints ? 1.0L : 0.0L;
 		       return (d < 0 ? -d : d) / s; });
+	if constexpr (L >= 2) {
+		// the decision dot(Nref, I) == 0 exactly: Nref = (I.y, -I.x, 0, ...) makes the two products cancel without rounding
+		add_op(nmv<T, Q, L>("faceforward_dot0"), spec("@F# @F#", tl, L), o, 'V', 'V', 0, FN { V n = LV::ld(in), i = LV::ld(in + L); V r(T(0)); r[0] = i[1]; r[1] = -i[0]; ST(out, glm::faceforward(n, i, r)); });
+	}
 	add_op(nmv<T, Q, L>("reflect"), spec("@F# @U#", tl, L), o, 'U', 'U', 16, FN { ST(out, glm::reflect(LV::ld(in), LV::ld(in + L))); }, SC { return amax<T>(in, 0, L) * 4; });
 	add_op(nmv<T, Q, L>("refract"), spec("@U# @U# @P1", tl, L), o, 'U', 'U', 64, FN { ST(out, glm::refract(LV::ld(in), LV::ld(in + L), SA<T>::get(in[2 * L]))); }, SC { return 4.0L + 4 * amax<T>(in, 2 * L, 1) * amax<T>(in, 2 * L, 1); },
 	       SC {  // k = 1 - eta^2 (1 - dot(N,I)^2): near k = 0 the square root is ill-conditioned and the branch may legitimately flip
